@@ -11,6 +11,7 @@
 //   store_text  <schema> <etype> <q|u><ctx hex> <text hex> <json> <plus>
 //                                                            the command line through parse_command
 //   store_redef <schema1> <schema2> <ctx hex> <json>         DEFINE twice, then STORE
+//   store_raw   <command line hex>                           any command line, raw answer (not used by the check)
 //
 // <schema>: "-" (no field) or fields joined by ',', each  name:p:spec  or  name:e:v1/v2 ("0" = no variant);
 //           names / specs / variants hex, "-" = empty string.
@@ -67,10 +68,18 @@ fn eng() -> &'static Eng {
             std::env::set_var("SNELDB_CONFIG", cfgp.display().to_string());
         }
         let rt = tokio::runtime::Builder::new_multi_thread().worker_threads(2).enable_all().build().unwrap();
+        // VHARN_STORE_FRONTEND=1: take registry and shard manager from FrontendContext::from_config()
+        // (exactly what the server builds) instead of constructing the two directly.
+        let frontend = std::env::var("VHARN_STORE_FRONTEND").map(|v| v == "1").unwrap_or(false);
         let (sm, reg) = rt.block_on(async {
-            let reg = Arc::new(RwLock::new(SchemaRegistry::new().expect("registry")));
-            let sm = Arc::new(ShardManager::new(2, dir.join("cols"), dir.join("wal")).await);
-            (sm, reg)
+            if frontend {
+                let ctx = snel_db::frontend::context::FrontendContext::from_config().await;
+                (Arc::clone(&ctx.shard_manager), Arc::clone(&ctx.registry))
+            } else {
+                let reg = Arc::new(RwLock::new(SchemaRegistry::new().expect("registry")));
+                let sm = Arc::new(ShardManager::new(2, dir.join("cols"), dir.join("wal")).await);
+                (sm, reg)
+            }
         });
         Eng { rt, sm, reg, st: Mutex::new(St::default()) }
     })
@@ -410,6 +419,19 @@ pub fn run(t: &[String]) -> String {
                 Some(FieldType::Optional(i)) => format!("O {}", pn(&i)),
                 Some(ft) => format!("P {}", pn(&ft)),
             }
+        }
+        // store_raw <hex of a command line>: parse_command + dispatch_command, raw answer (for replays by hand)
+        "store_raw" => {
+            let line = hs(&t[1]);
+            match parse_command(&line) {
+                Err(err) => format!("PARSE_ERR {:?}", err),
+                Ok(cmd) => dispatch(&cmd).iter().map(|d| d.to_string()).collect::<Vec<_>>().join(" "),
+            }
+        }
+        // store_sleep <ms>: let background work (flushes) finish; for replays by hand
+        "store_sleep" => {
+            std::thread::sleep(std::time::Duration::from_millis(t[1].parse().unwrap_or(0)));
+            "SLEPT".into()
         }
         "store_case" => {
             let Some(payload) = json_tok(&t[4]) else { return "GENBUG json".into() };
